@@ -200,41 +200,6 @@ pub proof fn lemma_there_quant(q: Quantifier, vars: Seq<Variable>, body: Formula
     }
 }
 
-// ---- persistence: <H,T> |= F implies T |= F ---------------------------------------------
-pub proof fn lemma_persistence(f: Formula, m: HT, s: Asg)
-    requires ht_wf(m),
-    ensures ht_sat(f, World::Here, m, s) ==> ht_sat(f, World::There, m, s),
-    decreases f, 0nat,
-{
-    match f {
-        Formula::AtomicFormula(a) => {}
-        Formula::UnaryFormula { connective, formula } => {}
-        Formula::BinaryFormula { connective, lhs, rhs } => {
-            lemma_persistence(*lhs, m, s);
-            lemma_persistence(*rhs, m, s);
-        }
-        Formula::QuantifiedFormula { quantification, formula } => {
-            lemma_persistence_quant(quantification.quantifier, quantification.variables@, *formula, m, s);
-        }
-    }
-}
-
-pub proof fn lemma_persistence_quant(q: Quantifier, vars: Seq<Variable>, body: Formula, m: HT, s: Asg)
-    requires ht_wf(m),
-    ensures ht_quant(q, vars, body, World::Here, m, s) ==> ht_quant(q, vars, body, World::There, m, s),
-    decreases body, vars.len() + 1,
-{
-    if vars.len() == 0 {
-        lemma_persistence(body, m, s);
-    } else {
-        let v = vars[0];
-        assert forall|x: Val| ht_quant(q, vars.drop_first(), body, World::Here, m, #[trigger] s.insert(vkey(v), x))
-            ==> ht_quant(q, vars.drop_first(), body, World::There, m, s.insert(vkey(v), x)) by {
-            lemma_persistence_quant(q, vars.drop_first(), body, m, s.insert(vkey(v), x));
-        }
-    }
-}
-
 // ---- C05: gamma reduces HT satisfaction to classical satisfaction ----------------------
 pub proof fn lemma_gamma(f: Formula, i: Interp, m: HT, s: Asg)
     requires coupled(i, m), ht_wf(m),
